@@ -42,7 +42,8 @@ def main():
             "level_note": c["note"],
             "technique": c["technique"],
         })
-        engines.setdefault(c.get("engine", "E1"), []).append(pid)
+        for e in c.get("engine", "E1").split("+"):
+            engines.setdefault(e, []).append(pid)
     kinds = {
         "E1": ("vlib/core.py + vlib/gen.py", "Hypothesis value/grammar generation and bounded-exhaustive enumeration with in-process execution against reference oracles"),
         "E2": ("vlib/detsched.py", "schedule-owning harness: real code on real threads serialised by a deterministic scheduler with generated/enumerated schedules and a virtual clock"),
